@@ -61,7 +61,7 @@ IssuePayload(cs, n) ==
                      ELSE IF k = "_sd_alg" THEN JStr("sha-256")
                      ELSE JObj([j \in {"jwk"} |-> JwkOf(cs.hk)])])]
 Issue ==
-  /\ ph = "issue" /\ Len(creds) < Len(plan)
+  /\ ph = "issue" /\ Len(creds) < Len(plan) /\ "raw" \notin DOMAIN plan[Len(creds) + 1]
   /\ LET n == Len(creds) + 1
          cs == plan[n]
          ip == IssuePayload(cs, n)
@@ -74,6 +74,25 @@ Issue ==
         /\ hist' = Append(hist, [a |-> "Issue", c |-> n, U |-> cs.U, S |-> [kind |-> cs.S.kind, paths |-> SetToSeq(cs.S.paths)], nd |-> cs.nd,
                                   key |-> cs.key, alg |-> cs.alg, hk |-> cs.hk, exp |-> cs.exp, nbf |-> cs.nbf])
   /\ UNCHANGED <<plan, cur, other, ghost, obs, nAdv>>
+
+\* A credential whose payload and disclosures are given as such (plan element with a `raw` field): a validly signed but
+\* possibly ill-formed structure, as a careless or malicious issuer could produce it (C07, C08).  It goes straight to the wire.
+IssueRaw ==
+  /\ ph = "issue" /\ Len(creds) < Len(plan) /\ "raw" \in DOMAIN plan[Len(creds) + 1]
+  /\ LET n == Len(creds) + 1
+         cs == plan[n]
+         hdr == JObj([k \in {"alg"} |-> JStr(cs.alg)])
+         jwt == MkJwt(hdr, cs.pl, "sig:" \o ToString(n))
+         tm == [exp |-> cs.exp, nbf |-> cs.nbf]
+     IN /\ creds' = Append(creds, [raw |-> TRUE, key |-> cs.key, alg |-> cs.alg, hk |-> "", jwt |-> jwt, tm |-> tm,
+                                   discs |-> {[id |-> d.id, dg |-> d.dg, dec |-> d.dec, path |-> "raw"] : d \in SeqToSet(cs.discs)}])
+        /\ ledger' = ledger \cup {Signed(cs.key, cs.alg, jwt.id)}
+        /\ cur' = MkMsg(jwt, cs.discs, NoKB, tm)
+        /\ ghost' = [raw |-> TRUE, c |-> n, devs |-> cs.devs, sel |-> NOSEL, kb |-> NoKB]
+        /\ ph' = "adv"
+        /\ hist' = Append(hist, [a |-> "IssueRaw", c |-> n, pl |-> cs.pl, discs |-> [i \in DOMAIN cs.discs |-> cs.discs[i].dg], pool |-> cs.pool, devs |-> cs.devs,
+                                  key |-> cs.key, alg |-> cs.alg, exp |-> cs.exp, nbf |-> cs.nbf])
+  /\ UNCHANGED <<plan, other, obs, nAdv>>
 
 (***************************************************************************)
 (* Present: the holder algorithm SelH on (payload, all disclosures), then  *)
@@ -113,7 +132,7 @@ AlterDec(dec, what) ==
 Pool ==
   UNION {{[k |-> "gen", c |-> c, path |-> d.path, d |-> Wire(d)] : d \in creds[c].discs} : c \in DOMAIN creds}
   \cup UNION {{[k |-> "alt", c |-> c, path |-> d.path, w |-> w, d |-> Wire(MkDisc(AlterDec(d.dec, w), "adv"))] : d \in creds[c].discs, w \in {"salt", "name", "value"}} : c \in DOMAIN creds}
-  \cup {[k |-> "forged", f |-> f, d |-> IF f.dec = NONE THEN [id |-> [garbage |-> f.id], dg |-> Dg([garbage |-> f.id]), dec |-> NONE] ELSE Wire(MkDisc(f.dec, "adv"))] : f \in Forged}
+  \cup {[k |-> "forged", f |-> f, d |-> IF f.dec = NONE THEN [id |-> f.id, dg |-> Dg(f.id), dec |-> NONE] ELSE Wire(MkDisc(f.dec, "adv"))] : f \in Forged}
 Move(name) == name \in AdvMoves /\ ph = "adv" /\ nAdv < MaxAdv
 Rewrite(m, h) == /\ cur' = m /\ nAdv' = nAdv + 1 /\ hist' = Append(hist, h) /\ ph' = ph
                  /\ UNCHANGED <<plan, creds, other, ghost, obs>>
@@ -178,7 +197,7 @@ AdvForgeKB == Move("ForgeKB") /\ cur.kb = NoKB /\ \E k \in AdvKeys, va \in Verif
 AdvAlterJwt == Move("AlterJwt") /\ \E w \in {"p-add", "p-digest", "p-iss", "s", "h-typ"} :
                  LET j == cur.jwt
                      j2 == CASE w = "p-add" -> MkJwt(j.hdr, With(j.pl, "evil", JStr("x")), j.sig)
-                             [] w = "p-digest" -> MkJwt(j.hdr, IF Has(j.pl, "_sd") THEN With(j.pl, "_sd", JArr(<<>>)) ELSE With(j.pl, "_sd", JArr(<<JStr(Dg([adv |-> "digest"]))>>)), j.sig)
+                             [] w = "p-digest" -> MkJwt(j.hdr, IF Has(j.pl, "_sd") THEN With(j.pl, "_sd", JArr(<<>>)) ELSE With(j.pl, "_sd", JArr(<<JStr(Dg("adv"))>>)), j.sig)
                              [] w = "p-iss" -> MkJwt(j.hdr, With(j.pl, "iss", JStr("iss-adv")), j.sig)
                              [] w = "s" -> MkJwt(j.hdr, j.pl, "badsig")
                              [] w = "h-typ" -> MkJwt(With(j.hdr, "typ", JStr("x")), j.pl, j.sig)
@@ -224,7 +243,7 @@ Verify ==
   /\ ph' = "done"
   /\ UNCHANGED <<plan, creds, ledger, cur, other, ghost, nAdv>>
 
-Next == Issue \/ PresentCur \/ PresentOther \/ Adversary \/ Verify
+Next == Issue \/ IssueRaw \/ PresentCur \/ PresentOther \/ Adversary \/ Verify
 Spec == Init /\ [][Next]_vars
 \* history is an observation variable: pure invariant runs hide it
 ViewNoHist == <<plan, creds, ledger, cur, other, ghost, obs, nAdv, ph>>
@@ -237,7 +256,8 @@ Accepted(o) == o.r.v \in {"ok", "free"}
 Cnf(c, claims) == IF creds[c].hk = "" THEN claims ELSE With(claims, "cnf", JObj([j \in {"jwk"} |-> JwkOf(creds[c].hk)]))
 KBMatches(va, kb) == (va.aud = NONE /\ va.nonce = NONE) \/ (kb # NoKB /\ va.aud = JStr(kb.aud) /\ va.nonce = JStr(kb.nonce))
 \* the verification is one an honest party would make: untouched message, right issuer key, matching KB expectations, inside the window
-HonestObs(o) == /\ nAdv = 0 /\ o.rk = creds[ghost.c].key
+IsRaw == "raw" \in DOMAIN ghost
+HonestObs(o) == /\ nAdv = 0 /\ ~IsRaw /\ o.rk = creds[ghost.c].key
                 /\ KBMatches(o.va, ghost.kb)
                 /\ (ghost.kb # NoKB => ghost.kb.key = creds[ghost.c].hk)
                 /\ TimeOf(o.m, o.now, o.now) = "accept"
@@ -272,13 +292,13 @@ Inv_C09 == \A i \in DOMAIN obs : LET o == obs[i] IN
 Inv_Clean == \A i \in DOMAIN obs : (Accepted(obs[i]) /\ CredOf(obs[i].m.jwt.id) # {}) => NoReserved(obs[i].r.claims)
 
 \* the constructive issuer satisfies the relational clauses used on traces (the two readings cannot drift apart)
-Inv_IssueRel == \A c \in DOMAIN creds : LET cr == creds[c]  D == DMap(cr.discs)  hkj == IF cr.hk = "" THEN NONE ELSE JwkOf(cr.hk) IN
+Inv_IssueRel == \A c \in {x \in DOMAIN creds : "raw" \notin DOMAIN creds[x]} : LET cr == creds[c]  D == DMap(cr.discs)  hkj == IF cr.hk = "" THEN NONE ELSE JwkOf(cr.hk) IN
              /\ IssueExact(cr.U, cr.S, hkj, cr.jwt.pl, D)
              /\ IssueRefs(cr.jwt.pl, D)
              /\ IssueDecoys(cr.U, hkj, cr.jwt.pl, D, cr.nd > 0)
              /\ (cr.nd = 0 => Unmatched(cr.jwt.pl, D) = {})
 \* the constructive holder satisfies the relational clauses, and chooses exactly the oracle's disclosures (C06)
-Inv_PresentRel == (ph \in {"adv", "done"} /\ nAdv = 0) =>
+Inv_PresentRel == (ph \in {"adv", "done"} /\ nAdv = 0 /\ ~IsRaw) =>
              LET cr == creds[ghost.c]
                  inm == MkMsg(cr.jwt, WireSeq(cr.discs), NoKB, cr.tm)
              IN /\ PresentExact(inm, ghost.sel, cur)
